@@ -226,7 +226,7 @@ func (r StatsCloser) Close() error {
 type Cached struct {
 	L     *Log
 	Child int // stamped into Event.Thread
-	Caps tally.Capabilities
+	Caps  tally.Capabilities
 
 	mu      sync.Mutex
 	nextH   int
